@@ -718,6 +718,16 @@ def gen_tasks(tier, seed):
     if tier == "quick":
         # both forms of the options are exercised at least once on a two-function script
         tasks.append(dict(funcs=fixed[0], entry="", inp="stdin", out="stdout", sid=0, tool="bexp", form="cnf", fmt="dimacs"))
+    # identities written on both sides of == / != (sympy's to_anf is wrong on many non-NNF inputs): every form of them
+    ident = [("absorb", "def absorb(a: bool, b: bool, c: bool) -> bool:\n    return ((c and (c or b)) == c) and (a != b)"),
+             ("morgan", "def morgan(a: bool, b: bool, c: bool) -> bool:\n    return ((not (c and b)) == ((not c) or (not b))) and (a or c)"),
+             ("distr", "def distr(a: bool, b: bool, c: bool) -> bool:\n    return ((a and (b or c)) == ((a and b) or (a and c))) and (b != c)")]
+    for k, (nme, _) in enumerate(ident):
+        for fm in FMTS:
+            tasks.append(dict(funcs=ident, entry=nme, inp="stdin", out="stdout", sid=900 + k, tool="bexp", form="anf", fmt=fm))
+        if tier != "quick":
+            for fo in FORMS:
+                tasks.append(dict(funcs=ident, entry=nme, inp="file", out="stdout", sid=900 + k, tool="bexp", form=fo, fmt=FMTS[0]))
     for i, t in enumerate(tasks):
         t["id"] = i
     return tasks
